@@ -18,6 +18,7 @@ extern "C" {
     fn riti_config_set_fixed_old_kar_order(ptr: *mut Config, o: bool);
     fn riti_config_set_suggestion_include_english(ptr: *mut Config, o: bool);
     fn riti_config_set_smart_quote(ptr: *mut Config, o: bool);
+    fn riti_config_set_ansi_encoding(ptr: *mut Config, o: bool);
     fn riti_context_new_with_config(ptr: *const Config) -> *mut RitiContext;
     fn riti_context_free(ptr: *mut RitiContext);
     fn riti_get_suggestion_for_key(ptr: *mut RitiContext, key: u16, modifier: u8, selection: u8) -> *mut Suggestion;
@@ -83,13 +84,14 @@ const VC_COLON: u16 = 0x0063;
 const VC_PAREN_RIGHT: u16 = 0x0044;
 const VC_KP_ENTER: u16 = 0x0E1C;
 
-unsafe fn phonetic_cycle(suggestions: bool, english: bool, keys: &[u16], backspaces: usize, commit: Option<usize>) {
+unsafe fn phonetic_cycle(suggestions: bool, english: bool, ansi: bool, keys: &[u16], backspaces: usize, commit: Option<usize>) {
     let cfg = riti_config_new();
     let l = CString::new("avro_phonetic").unwrap();
     assert!(riti_config_set_layout_file(cfg, l.as_ptr()));
     riti_config_set_phonetic_suggestion(cfg, suggestions);
     riti_config_set_suggestion_include_english(cfg, english);
     riti_config_set_smart_quote(cfg, true);
+    riti_config_set_ansi_encoding(cfg, ansi);
     let ctx = riti_context_new_with_config(cfg);
     assert!(!ctx.is_null());
     let mut kept: Vec<(*mut Suggestion, Vec<(*mut c_char, String)>)> = Vec::new();
@@ -130,13 +132,14 @@ fn ffi_life_cycles() {
         // user files must not be touched: an unwritable, non-existent data home
         std::env::set_var("XDG_DATA_HOME", "/nonexistent/riti-verif-miri");
         let thorough = std::env::var("VERIF_TIER").map(|t| t == "thorough").unwrap_or(false);
-        phonetic_cycle(true, true, &[VC_A, VC_M, VC_QUOTE], 1, Some(0));
+        phonetic_cycle(true, true, false, &[VC_A, VC_M, VC_QUOTE], 1, Some(0));
         // empty texts: "`a" + backspace with suggestions off returns an empty single suggestion
-        phonetic_cycle(false, false, &[VC_GRAVE, VC_A], 1, None);
+        // ANSI output on: pre-edit text is the Bijoy encoding, also for a single-string suggestion
+        phonetic_cycle(false, false, true, &[VC_GRAVE, VC_A], 1, None);
         if thorough {
-            phonetic_cycle(true, false, &[VC_QUOTE, VC_A, VC_QUOTE], 0, None);
-            phonetic_cycle(true, true, &[VC_COLON, VC_PAREN_RIGHT, VC_KP_ENTER], 2, None);
-            phonetic_cycle(false, false, &[VC_GRAVE], 1, None);
+            phonetic_cycle(true, false, true, &[VC_QUOTE, VC_A, VC_QUOTE], 0, None);
+            phonetic_cycle(true, true, false, &[VC_COLON, VC_PAREN_RIGHT, VC_KP_ENTER], 2, None);
+            phonetic_cycle(false, false, false, &[VC_GRAVE, VC_A], 1, None);
         }
         // nulls
         riti_string_free(std::ptr::null_mut());
